@@ -93,6 +93,9 @@ func canonV(v ref.V, loose bool) string {
 }
 
 var c15Forms = []string{
+	"{x: let $a = a in $a, y: let $b = b in $a}", "let $a = 'outer' in {x: let $a = 'inner' in $a, y: let $b = b in [$a, $b]}", "[let $a = a in $a, let $b = b in [$b]]",
+	"let $p = (let $a = a in $a), $q = (let $b = b in [$b, $b]) in [$p, $q]", "{x: let $a = a in [$a], y: let $b = b in {z: $b}, z: let $c = c in $c}", "let $a = a in {x: let $b = b in [$a, $b], y: let $c = c in [$a, $c], z: $a}",
+	"{p: let $a = a, $b = b in [$a, $b], q: let $a = c in $a, r: let $d = d in $d}", "rs[*].{x: let $i = id in $i, y: let $k = k in [$k], z: let $n = n in $n}", "[*].length(merge(`{}`, @))", "rs[*].merge(`{\"tag\":\"t\"}`, @).id", "merge(`{\"kind\":\"default\"}`, o1) | length(@)",
 	"{a: a, b: b, a: c}", "{b: a, a: b, b: c}.b", "let $x = a, $y = b, $x = c in [$x, $y]", "let $a = a, $b = b, $c = c, $d = d, $e = e in [$a, $b, $c, $d, $e]",
 	"merge(@, {a: `1`}, {a: `2`})", "merge({a: `1`, b: `1`}, {b: `2`, c: `2`}, {c: `3`, a: `3`})", "merge(a, b, c)", "merge(o1, o2, o1)", "merge(o2, o1)",
 	"group_by(rs, &k)", "group_by(rs, &k).*", "group_by(rs, &k) | keys(@) | sort(@)", "group_by(rs, &to_string(n))", "from_items(ps)", "from_items(items(o1))", "from_items(`[[\"a\",1],[\"b\",2],[\"a\",3]]`)", "from_items(zip(keys(o1), values(o1)))",
